@@ -455,7 +455,8 @@ func (c *twoPhaseCommitter) buildPipelinedResolveHandler(commit bool, resolved *
 	}, nil
 }
 
-// resolveFlushedLocks resolves all locks in the given range [start, end) with the given status.
+// resolveFlushedLocks resolves all locks in the given range [start, end] with the given status.
+// Both bounds are inclusive: callers pass the smallest and the largest flushed key.
 // The resolve process is running in another goroutine so this function won't block.
 func (c *twoPhaseCommitter) resolveFlushedLocks(bo *retry.Backoffer, start, end []byte, commit bool) {
 	var resolved atomic.Uint64
@@ -491,7 +492,8 @@ func (c *twoPhaseCommitter) resolveFlushedLocks(bo *retry.Backoffer, start, end 
 	runner.SetRegionsPerTask(1)
 
 	c.txn.spawnWithStorePool(func() {
-		if err = runner.RunOnRange(bo.GetCtx(), start, end); err != nil {
+		// RunOnRange takes a half-open range, so the end is the key right after the largest flushed key.
+		if err = runner.RunOnRange(bo.GetCtx(), start, kv.NextKey(end)); err != nil {
 			logutil.Logger(bo.GetCtx()).Error("[pipelined dml] resolve flushed locks failed",
 				zap.String("txn-status", status),
 				zap.Uint64("resolved regions", resolved.Load()),
